@@ -115,6 +115,9 @@ impl<'a, T: Read + Write + Seek> ImageWriter<'a, T> {
         properties: VisualReferenceImageProperties,
         mask: Option<&mut dyn Read>,
     ) -> Result<()> {
+        if self.image.visual_reference.is_some() {
+            Error::invalid("A visual reference image is already set")?
+        }
         let data = Blob::write(self.writer, image)?;
         let blob = ImageBlob { data, format };
         let mask = if let Some(mask_data) = mask {
